@@ -101,6 +101,9 @@ type dbHarness struct {
 	// I/O fault injection (C43)
 	faultsArmed   bool
 	faultsStopped bool
+	rotInc        *simrt.Inc // side incarnation reading a damaged copy (C27)
+	opening       bool // pebble.Open of the current incarnation is running
+	openFailed    bool // ... has returned an error
 }
 
 func (h *dbHarness) count(k string, n int64) { h.stat[k] += n }
@@ -183,6 +186,13 @@ func (l simLogger) Errorf(format string, args ...interface{}) {
 func (l simLogger) Fatalf(format string, args ...interface{}) {
 	msg := fmt.Sprintf(format, args...)
 	inc := simrt.CurInc()
+	if inc != nil && inc == l.h.rotInc {
+		// Pebble gives up on a damaged file: loud, not silent
+		l.h.count("rot.fatalf", 1)
+		simrt.Kill(inc)
+		simrt.Wake(rotWaitKey)
+		simrt.ParkForever()
+	}
 	if inc != nil && inc.FaultFired {
 		// Unrecoverable I/O outcome after an injected fault: a process crash.
 		l.h.count("fatalf.crash", 1)
@@ -197,6 +207,8 @@ func (h *dbHarness) crashHere() {
 	simrt.Wake(uintptr(h.rootKeyAddr()))
 	simrt.ParkForever()
 }
+
+func (h *dbHarness) ctxBg() context.Context { return context.Background() }
 
 func (h *dbHarness) rootKeyAddr() uintptr { return uintptr(0x1000 + h.rootKey) }
 
@@ -397,7 +409,9 @@ func (h *dbHarness) drive() {
 		// recovery itself runs under the remaining fault rules
 		h.armFaults()
 	}
+	h.opening, h.openFailed = true, false
 	db, err := pebble.Open("db", h.opts)
+	h.opening, h.openFailed = false, err != nil
 	if err != nil {
 		if h.pendingCtx != nil && !h.inc.FaultFired {
 			Violation("recovery", "Open failed after a crash whose only fault is loss of unsynced data: %v", err)
@@ -532,12 +546,23 @@ func (h *dbHarness) exec(op *DBOp) {
 		h.crashHere()
 	case "durscan":
 		h.execDurScan()
+	case "rot":
+		h.execRot(op)
 	case "compact":
 		if err := h.db.Compact(context.Background(), []byte(op.Key), []byte(op.End), op.Flag); err != nil {
 			h.opErr("compact", err)
 		}
 	case "scan":
 		h.checkScan(h.model.Len())
+		if h.faultProfile() && h.faultsStopped {
+			// after the faults stopped: points and range keys, all of them
+			pts, spans, err := readAll(h.db)
+			if err != nil {
+				h.opErr("scan", err)
+			} else if d := diffState(h.model.Latest(), pts, spans); d != "" {
+				Violation("scan", "after the faults stopped the store differs from the model after %d groups: %s", h.model.Len(), d)
+			}
+		}
 	case "reopen":
 		pos := h.model.Len()
 		if h.cfg.DisableWAL {
@@ -557,7 +582,9 @@ func (h *dbHarness) exec(op *DBOp) {
 		if !h.cfg.DisableWAL {
 			h.durs = append(h.durs, durPoint{pos: pos, ackIdx: h.disk.LogLen(), what: "close"})
 		}
+		h.opening = true
 		db, err := pebble.Open("db", h.makeOptions())
+		h.opening, h.openFailed = false, err != nil
 		if err != nil {
 			h.opErr("reopen", err)
 			h.crashHere()
@@ -567,6 +594,8 @@ func (h *dbHarness) exec(op *DBOp) {
 			// a fresh Open after the faults stopped: from here on every error
 			// and every Fatalf is a violation again
 			h.inc.FaultFired = false
+			// "a background failure never corrupts the LSM"
+			h.checkLevels("after the faults stopped and the store was reopened")
 		}
 		h.checkScan(h.model.Len())
 		if h.plan.Profile == "files" {
